@@ -99,6 +99,13 @@ func match(t *rt.Thread, c *rt.GoCont) (rt.Cont, error) {
 	if ptnErr != nil {
 		return nil, ptnErr
 	}
+	if si > len(s) {
+		// Start position after the end of the subject: no match (as in
+		// string.find).  The matcher must not be run from there: an anchored
+		// pattern would "match" outside the string.
+		t.Push1(next, rt.NilValue)
+		return next, nil
+	}
 	captures, usedCPU := pat.MatchFromStart(string(s), si, t.UnusedCPU())
 	t.RequireCPU(usedCPU)
 	pushCaptures(t.Runtime, captures, s, next)
